@@ -59,7 +59,7 @@ class Rig:
     def __init__(self, t0=1000.0, timer_value=5, seed=0):
         import simulators.minor_servos as ms
         self.ms = ms
-        self.saved = {k: getattr(ms, k) for k in ('threading', 'time', 'random', 'splev')}
+        self.saved = {k: getattr(ms, k) for k in ('threading', 'time', 'random', 'splev', 'splrep')}
         self.tick = 0
         self.t0 = float(t0)
         self.timers = []          # live VTimer objects
@@ -68,7 +68,7 @@ class Rig:
         self.draws = []
         self.spl_log = []         # (servo name, value)
         self.lines = []           # messages passed to _execute
-        self.pt_good = False
+        self.splrep_ok = True
         rig = self
 
         class VTimer:
@@ -138,13 +138,19 @@ class Rig:
             raise
         orig = self.system._execute
 
+        real_splrep = ms.splrep
+
+        def splrep(*a, **k):
+            try:
+                return real_splrep(*a, **k)
+            except Exception:
+                rig.splrep_ok = False
+                raise
+        ms.splrep = splrep
+
         def _execute(msg):
             rig.lines.append(msg)
-            r = orig(msg)
-            if msg.split('=')[0].split(',')[0].strip() == 'PROGRAMTRACK' and isinstance(r, str) \
-                    and r.startswith('OUTPUT:GOOD'):
-                rig.pt_good = True
-            return r
+            return orig(msg)
         self.system._execute = _execute
         self.names = list(self.system.servos)
         self.ops = []
@@ -184,7 +190,7 @@ class Rig:
                 self.note(x)
 
     def _begin(self):
-        self.draws, self.spl_log, self.pt_good = [], [], False
+        self.draws, self.spl_log, self.splrep_ok = [], [], True
 
     # -- operations ---------------------------------------------------------------
     def feed(self, data, dticks=0):
@@ -222,7 +228,7 @@ class Rig:
             spl = [v for _, v in self.spl_log]
             self.ops.append('MOp %s %s %s %s %s %s [%s]' % (
                 zlit(self.tick), zlit(fbits(self.now())), zlist([fbits(d) for d in self.draws]),
-                zlist([fbits(v) for v in spl]), blit(self.pt_good), zlist(s2l(chunk)),
+                zlist([fbits(v) for v in spl]), blit(self.splrep_ok), zlist(s2l(chunk)),
                 '; '.join('(%s, %s)' % (zlit(i), zlist(r)) for i, r in obs)))
         return out
 
@@ -239,15 +245,18 @@ class Rig:
             def value(self):
                 self.n += 1
                 return self.n > 1
+        exc = False
         try:
             self.ms.System._update(Stop(), self.system.servos)
         except Exception as ex:     # noqa: the real update thread would die here
             self.update_exc = ex
+            exc = True
         self.note_values()
         per = []
         for n in self.names:
             per.append(zlist([fbits(v) for nm, v in self.spl_log if nm == n]))
-        self.ops.append('MRefresh %s %s [%s]' % (zlit(self.tick), zlit(fbits(self.now())), '; '.join(per)))
+        self.ops.append('MRefresh %s %s [%s] %s' % (zlit(self.tick), zlit(fbits(self.now())), '; '.join(per),
+                                                    blit(exc)))
 
     # -- snapshot / case ------------------------------------------------------------
     def timer_of(self, t):
@@ -264,7 +273,11 @@ class Rig:
                             coords=[float(x) for x in sv.coords], cmd=[float(x) for x in sv.cmd_coords],
                             offs=[float(x) for x in sv.offsets], last=float(sv.last_status_read),
                             timer=self.timer_of(sv.operative_mode_timer),
-                            alias=sv.cmd_coords is sv.coords))
+                            alias=sv.cmd_coords is sv.coords,
+                            tid=getattr(sv, 'trajectory_id', None), tstart=getattr(sv, 'trajectory_start_time', None),
+                            tpid=getattr(sv, 'trajectory_point_id', None),
+                            times=[float(x) for x in (getattr(sv, 'trajectory', None) or [[]])[0]],
+                            pt=bool(getattr(sv, 'pt_table', []))))
         last = s.last_executed_command
         return dict(msg=s.msg, conf=s.configuration, gcap=s.gregorian_cap.value,
                     cover=self.timer_of(s.cover_timer),
@@ -274,10 +287,12 @@ class Rig:
         sn = self.snapshot()
         svs = []
         for d in sn['servos']:
-            svs.append('MSv %s %s %s %s %s %s %s %s' % (
+            svs.append('MSv %s %s %s %s %s %s %s %s %s %s %s %s %s' % (
                 zlit(d['mode']), zlit(d['future']), zlist([fbits(x) for x in d['coords']]),
                 zlist([fbits(x) for x in d['cmd']]), zlist([fbits(x) for x in d['offs']]),
-                zlit(fbits(d['last'])), olit(d['timer'], pair), blit(d['alias'])))
+                zlit(fbits(d['last'])), olit(d['timer'], pair), blit(d['alias']),
+                olit(d['tid']), olit(None if d['tstart'] is None else fbits(d['tstart'])), olit(d['tpid']),
+                zlist([fbits(x) for x in d['times']]), blit(d['pt'])))
         last = sn['last']
         if last is not None:
             # the text of plc_time(t): find the double it renders
@@ -489,6 +504,96 @@ def refused_prefix_traces(lim):
             tr.append(['STATUS=%s' % sv, 10])
             out[(sv, cmd)] = tr
     return out
+
+
+PHASES = ('point0', 'before', 'during', 'ended-unseen', 'ended-seen')
+MODES = (0, 10, 20, 30, 40)
+
+
+def refusals(sv, lim, now):
+    """refused commands of every kind addressed to servo `sv` at virtual time `now` (text depends on it)"""
+    lo, hi, _, dof, cap = lim[sv]
+    ok = [repr(round(lo[i] + (hi[i] - lo[i]) * 0.4, 3)) for i in range(dof)]
+    def put(tok, j=None):
+        v = list(ok)
+        v[dof - 1 if j is None else j] = tok
+        return ','.join(v)
+    out = [
+        'PROGRAMTRACK=%s,901,0,%r,%s' % (sv, now - 100.0, ','.join(ok)),       # start time in the past
+        'PROGRAMTRACK=%s,902,3,%r,%s' % (sv, now + 50.0, ','.join(ok)),        # wrong first point id
+        'PROGRAMTRACK=%s,903,0,%r,%s' % (sv, now + 50.0, put('x')),            # bad coordinate
+        'PROGRAMTRACK=%s,904,0,%r,%s' % (sv, now + 50.0, put('nan')),
+        'PROGRAMTRACK=%s,905,1,*,%s' % (sv, ','.join(ok)),                     # unknown trajectory
+        'PROGRAMTRACK=%s,x,0,%r,%s' % (sv, now + 50.0, ','.join(ok)),
+        'PROGRAMTRACK=%s,906,0,soon,%s' % (sv, ','.join(ok)),
+        'PROGRAMTRACK=%s,907,0,%r' % (sv, now + 50.0),                         # wrong count
+        'PRESET=%s,%s' % (sv, put('1e9')), 'PRESET=%s,%s' % (sv, put('nan')), 'PRESET=%s,%s' % (sv, put('')),
+        'PRESET=%s' % sv, 'OFFSET=%s,%s' % (sv, put('x')), 'OFFSET=%s' % sv,
+        'SETUP=Nowhere', 'SETUP', 'STOW=%s,x' % sv, 'STOW=%s' % sv, 'STOP=%s,1' % sv, 'STOP=XYZ', 'FOO=1',
+    ]
+    return out
+
+
+def family_trace(sv, state, lim, t0, which=None, timer_value=5):
+    """servo `sv` put into `state` (an operative mode 0/10/20/30/40, or a program-track phase), then refused
+    commands (all of `refusals`, or only number `which`), interleaved with refreshes.  The caller appends the
+    STATUS catalogue.  Times are absolute: t0 + tick/1024."""
+    lo, hi, md, dof, cap = lim[sv]
+    tr, tick = [[None, 0]], 0
+
+    def add(line, dt):
+        nonlocal tick
+        tick += dt
+        tr.append([line, dt])
+
+    def now():
+        return t0 + tick / float(TICKS)
+    far = [repr(round(lo[i] + (hi[i] - lo[i]) * 0.9, 3)) for i in range(dof)]
+    if state == 0:
+        add('PRESET=%s,%s' % (sv, ','.join(far)), 10)
+        add(None, 512)                                   # still moving
+    elif state == 10:
+        add('SETUP=BWG3', 10)
+        add(None, 400000)
+        add(None, 10)
+    elif state == 20:
+        add('STOW=%s,1' % sv, 10)
+        add(None, int(timer_value * TICKS) + 1)
+    elif state == 30:
+        add('PRESET=%s,%s' % (sv, ','.join(far)), 10)
+        add(None, 512)
+        add('STOP=%s' % sv, 10)
+        add(None, 100)
+    elif state == 40:
+        add('PRESET=%s,%s' % (sv, ','.join(far)), 10)
+        add(None, 400000)
+        add(None, 10)
+    else:
+        lead = 50.0 if state == 'before' else 0.5
+        start = now() + lead
+        pts = 1 if state == 'point0' else 6
+        for pid in range(pts):
+            c = [repr(round(lo[i] + (hi[i] - lo[i]) * (0.3 + 0.05 * pid), 3)) for i in range(dof)]
+            add('PROGRAMTRACK=%s,77,%d,%s,%s' % (sv, pid, repr(start) if pid == 0 else '*', ','.join(c)),
+                10 if pid == 0 else 100)
+            if pid % 2:
+                add(None, 50)
+        if state == 'during':
+            add('STATUS=%s' % sv, 200)
+        elif state == 'ended-unseen':
+            tick += 20000
+            tr.append(['STATUS', 20000])                 # time passes, this servo is not refreshed
+        elif state == 'ended-seen':
+            add(None, 20000)
+            add('STATUS=%s' % sv, 10)
+    rs = refusals(sv, lim, now())
+    for k, line in enumerate(rs):
+        if which is None or which == k:
+            add(line, 10)
+            if k % 3 == 0:
+                add(None, 10)
+    add(None, 10)
+    return tr
 
 
 def pt_burst(rng, rig, lim, feed, refresh):
